@@ -115,11 +115,18 @@ Definition n_UINT := zs_of_string "UINT".
 Definition n_USINT := zs_of_string "USINT".
 Definition n_SHORT_STRING := zs_of_string "SHORT_STRING".
 
+(* bytes per character: the string classes carry `char_size` next to `encoding`; the model derives
+   it from the encoding and [ty_of_row] checks the regenerated class attribute against it *)
+Definition enc_char_size (e : tenc) : Z :=
+  match e with Latin1 | Utf8 => 1 | Utf16 => 2 | Utf32 => 4 end.
+Fixpoint name_lookup (t : list (list Z * Z)) (n : list Z) : option Z :=
+  match t with [] => None | (n', c) :: r => if text_eqb n' n then Some c else name_lookup r n end.
+
 (* the [ty] an exported elementary class name denotes, read off its Gen row *)
 Definition ty_of_row (rows : list row) (r : row) : option ty :=
   let n := row_name r in
   if text_eqb n n_BOOL then (if (row_size r =? 1) && match row_fmt r with [] => true | _ => false end then Some TBool else None)
-  else if text_eqb n n_DATE_AND_TIME then (if row_size r =? 8 then Some TDateTime else None)
+  else if text_eqb n n_DATE_AND_TIME then (if row_size r =? 6 then Some TDateTime else None)
   else if text_eqb n n_STRINGN then Some TStringN
   else if text_eqb n n_STRINGI then Some TStringI
   else match row_fmt r with
@@ -139,9 +146,9 @@ Definition ty_of_row (rows : list row) (r : row) : option ty :=
            | [] =>
                match row_len_type r, enc_sem (row_encoding r) with
                | _ :: _, Some e =>
-                   match int_row_in rows (row_len_type r) with
-                   | Some (sg, w) => Some (TStr sg w e)
-                   | None => None
+                   match int_row_in rows (row_len_type r), name_lookup string_char_sizes n with
+                   | Some (sg, w), Some cs => if cs =? enc_char_size e then Some (TStr sg w e) else None
+                   | _, _ => None
                    end
                | _, _ => None
                end
@@ -217,29 +224,35 @@ Definition named_int_encode (n : list Z) (v : val) : res bytes :=
 Definition named_int_decode (n : list Z) (bs : bytes) : dres :=
   match int_row n with Some (sg, w) => int_decode sg w bs | None => DErr (Foreign AttributeError) end.
 
-(* DATE_AND_TIME: `encode(cls, time, date, *args, **kwargs)` takes TWO positional values, so the
-   uniform call T.encode(value) fails with TypeError before the body (and its try) is entered. *)
-Definition datetime_encode (v : val) : res bytes := Err (Foreign TypeError).
+(* DATE_AND_TIME: `encode(cls, time, date=None, *args, **kwargs)`, an overriding public method
+   with its own try: the uniform call T.encode(value) unpacks the (time, date) pair *)
 Definition datetime_encode2 (time date : val) : res bytes :=
-  wrap_all DataError (let* a := named_int_encode n_UDINT time in let* b := named_int_encode n_UINT date in Ok (a ++ b)).
+  wrap_all DataError (
+    let* td := match date with
+               | VNone => let* items := py_iter time in
+                          match items with [t; d] => Ok (t, d) | _ => Err (Foreign ValueError) end
+               | _ => Ok (time, date)
+               end in
+    let* a := named_int_encode n_UDINT (fst td) in let* b := named_int_encode n_UINT (snd td) in Ok (a ++ b)).
+Definition datetime_encode (v : val) : res bytes := datetime_encode2 v VNone.
 Definition datetime_decode (bs : bytes) : dres :=
   dwrap (dbind (named_int_decode n_UDINT bs) (fun t r1 =>
          dbind (named_int_decode n_UINT r1) (fun d r2 => DOk (VTuple [t; d]) r2))).
 
-(* StringDataType *)
+(* StringDataType: the prefix counts characters (code units of char_size bytes) *)
 Definition str_encode (lsg : bool) (lw : nat) (enc : tenc) : val -> res bytes :=
   pub_encode (fun v =>
-    let* n := py_len v in
-    let* l := int_encode lsg lw (VInt n) in
     match v with
-    | VStr s => let* d := text_encode enc s in Ok (l ++ d)
-    | _ => Err (Foreign AttributeError)          (* bytes/list/tuple/dict have no .encode *)
+    | VStr s => let* d := text_encode enc s in
+                let* l := int_encode lsg lw (VInt (zlen d / enc_char_size enc)) in
+                Ok (l ++ d)
+    | _ => Err (Foreign AttributeError)          (* value.encode *)
     end).
 
 Definition str_decode (lsg : bool) (lw : nat) (enc : tenc) (bs : bytes) : dres :=
   dwrap (dbind (int_decode lsg lw bs) (fun n r1 =>
     if as_int n =? 0 then DOk (VStr []) r1
-    else stream_read (as_int n) r1 (fun data r2 =>
+    else stream_read (as_int n * enc_char_size enc) r1 (fun data r2 =>
            match text_decode enc data with Ok s => DOk (VStr s) r2 | Err e => DErr e end))).
 
 (* STRINGN: encode(value, char_size=1) — an overriding public method with its own try *)
@@ -251,11 +264,12 @@ Definition stringn_encode_cs (cs : val) (v : val) : res bytes :=
         match stringn_enc c with
         | None => Err (Foreign KeyError)
         | Some enc =>
-            let* a := named_int_encode n_UINT cs in
-            let* n := py_len v in
-            let* b := named_int_encode n_UINT (VInt n) in
             match v with
-            | VStr s => let* d := text_encode enc s in Ok (a ++ b ++ d)
+            | VStr s =>
+                let* d := text_encode enc s in
+                let* a := named_int_encode n_UINT cs in
+                let* b := named_int_encode n_UINT (VInt (zlen d / c)) in
+                Ok (a ++ b ++ d)
             | _ => Err (Foreign AttributeError)
             end
         end
@@ -269,15 +283,13 @@ Definition stringn_decode (bs : bytes) : dres :=
            match stringn_enc (as_int cs) with
            | None => DErr DataError
            | Some enc =>
-               stream_read (as_int cnt * as_int cs) r2 (fun data r3 =>
-                 match text_decode enc data with Ok s => DOk (VStr s) r3 | Err e => DErr e end)
+               if as_int cnt =? 0 then DOk (VStr []) r2
+               else stream_read (as_int cnt * as_int cs) r2 (fun data r3 =>
+                      match text_decode enc data with Ok s => DOk (VStr s) r3 | Err e => DErr e end)
            end))).
 
-(* BytesDataType / n_bytes(n): value[:n] (value[:] when n = -1) of whatever sliceable it is given.
-   A str / list / tuple argument makes the implementation RETURN that object's slice (a str or a
-   list, not bytes): the model returns the items ([Ok]) and [encode_result_kind] says what kind of
-   object it is; inside a b"".join (Struct, Array, StructTag) the non-bytes object is a TypeError
-   ([as_member]).  Lists with non-integer items are outside the model (marker: NotImplementedError). *)
+(* BytesDataType / n_bytes(n): bytes(value[:n]) (bytes(value[:]) when n = -1): bytes stay bytes, a
+   list / tuple whose SLICE holds integers 0..255 becomes bytes, anything else is an exception *)
 Fixpoint ints_of (l : list val) : option (list Z) :=
   match l with
   | [] => Some []
@@ -285,19 +297,17 @@ Fixpoint ints_of (l : list val) : option (list Z) :=
   | VBool b :: r => option_map (cons (if b then 1 else 0)) (ints_of r)
   | _ => None
   end.
-Definition nbytes_encode (n : Z) (v : val) : res bytes :=
-  let cut := fun (l : list Z) => if n =? -1 then l else slice_to n l in
-  match v with
-  | VList l | VTuple l =>
-      match ints_of l with Some zs => Ok (cut zs) | None => Err (Foreign NotImplementedError) end
-  | _ =>
-      pub_encode (fun v =>
-        match v with
-        | VBytes b => Ok (cut b)
-        | VStr s => Ok (cut s)
-        | _ => Err (Foreign TypeError)
-        end) v
-  end.
+Definition nbytes_encode (n : Z) : val -> res bytes :=
+  pub_encode (fun v =>
+    match v with
+    | VBytes b => Ok (if n =? -1 then b else slice_to n b)
+    | VList l | VTuple l =>
+        match ints_of (if n =? -1 then l else slice_to n l) with
+        | Some zs => if bytes_ok zs then Ok zs else Err (Foreign ValueError)
+        | None => Err (Foreign TypeError)
+        end
+    | _ => Err (Foreign TypeError)
+    end).
 Definition nbytes_decode (n : Z) (bs : bytes) : dres :=
   dwrap (stream_read n bs (fun data rest => DOk (VBytes data) rest)).
 
@@ -418,16 +428,16 @@ Definition pccc_ascii_encode : val -> res bytes :=
         | _ => Err (Foreign ValueError)
         end
     end).
-(* plain stream.read(2): no BufferEmptyError *)
+(* _stream_read(stream, 2) *)
 Definition pccc_ascii_decode (bs : bytes) : dres :=
   match pccc_ascii_enc with
   | None => DErr DataError
   | Some enc =>
-      dwrap (let '(d, r) := stream_take 2 bs in
+      dwrap (stream_read 2 bs (fun d r =>
              match slc_swap d with
              | None => DErr (Foreign ValueError)
              | Some sw => match text_decode enc sw with Ok s => DOk (VStr s) r | Err e => DErr e end
-             end)
+             end))
   end.
 
 Definition pccc_string_encode : val -> res bytes :=
@@ -568,20 +578,16 @@ Fixpoint chunk_vals (fuel : nat) (chunk : nat) (values : val) (i : nat) (n : nat
                 Ok (c :: r)
   end.
 
-(* Array.encode.  [fixed] = Some n for an integer length; [bitsz] = Some w when the element type is
-   a BitArrayType of w bytes; [elem_inst] = the element type is an INSTANCE (n_bytes(k)), on which
-   `issubclass(cls.element_type, BitArrayType)` raises TypeError. *)
-Definition array_encode (fixed : option nat) (bitsz : option nat) (elem_inst : bool)
+(* Array.encode (everything inside its try).  [fixed] = Some n for an integer length; [bitsz] =
+   Some w when the element type is (an instance of) a BitArrayType of w bytes. *)
+Definition array_encode (fixed : option nat) (bitsz : option nat)
            (enc : val -> res bytes) (values : val) : res bytes :=
-  (* outside the try: *)
-  let* nv := py_len values in
-  let* len0 := match fixed with
-               | Some n => if nv <? Z.of_nat n then Err DataError else Ok n
-               | None => Ok (Z.to_nat nv)
-               end in
-  (* inside the try: *)
   wrap_all DataError (
-    if elem_inst then Err (Foreign TypeError) else
+    let* nv := py_len values in
+    let* len0 := match fixed with
+                 | Some n => if nv <? Z.of_nat n then Err DataError else Ok n
+                 | None => Ok (Z.to_nat nv)
+                 end in
     match bitsz with
     | Some w =>
         let chunk := (w * 8)%nat in
@@ -612,28 +618,43 @@ Fixpoint chain_vals (l : list val) : res (list val) :=
   | v :: r => let* a := py_iter v in let* b := chain_vals r in Ok (a ++ b)
   end.
 
-Definition array_decode_fixed (n : nat) (is_bits : bool) (elem_inst : bool) (dec : bytes -> dres) (bs : bytes) : dres :=
-  dwrap (dbind (decode_n dec n bs) (fun vs rest =>
-    if elem_inst then DErr (Foreign TypeError)
-    else if is_bits then match vs with
-                    | VList l => match chain_vals l with Ok f => DOk (VList f) rest | Err e => DErr e end
-                    | _ => DErr (Foreign TypeError)
-                    end
-    else DOk vs rest)).
+(* the tail of Array.decode: bit-string elements are flattened *)
+Definition array_flatten (is_bits : bool) (vs : val) (rest : bytes) : dres :=
+  if is_bits then match vs with
+                  | VList l => match chain_vals l with Ok f => DOk (VList f) rest | Err e => DErr e end
+                  | _ => DErr (Foreign TypeError)
+                  end
+  else DOk vs rest.
 
-(* Array(L, T).decode with L a DataType: for a CLASS `isinstance(_length, DataType)` is False, so no
-   prefix is read; for an INSTANCE the prefix is read into `_len`; either way the loop is
-   `range(_length)`: TypeError. *)
-Definition array_decode_prefix (inst : bool) (declen : bytes -> dres) (bs : bytes) : dres :=
-  dwrap (if inst then dbind (declen bs) (fun _ _ => DErr (Foreign TypeError)) else DErr (Foreign TypeError)).
+Definition array_decode_fixed (n : nat) (is_bits : bool) (dec : bytes -> dres) (bs : bytes) : dres :=
+  dwrap (dbind (decode_n dec n bs) (array_flatten is_bits)).
 
-(* Array._decode_all: `while True: try: append(decode) except BufferEmptyError: break` *)
+(* Array(L, T).decode with L a DataType class or instance: `_len = L.decode(stream)`, then
+   `range(_len)` elements.  [count_limit] bounds the loop the model runs; a larger count whose first
+   [count_limit] elements all decode (elements of no size) is reported as out of fuel. *)
+Definition count_limit : Z := 1048576.
+Definition array_decode_prefix (is_bits : bool) (declen : bytes -> dres) (dec : bytes -> dres) (bs : bytes) : dres :=
+  dwrap (dbind (declen bs) (fun n r1 =>
+    let count := match n with VInt z => Some z | VBool b => Some (if b then 1 else 0) | _ => None end in
+    match count with
+    | None => DErr (Foreign TypeError)               (* range(<not an integer>) *)
+    | Some z =>
+        match decode_n dec (Z.to_nat (Z.min z count_limit)) r1 with
+        | DOk vs r2 => if count_limit <? z then DOutOfFuel else array_flatten is_bits vs r2
+        | other => other
+        end
+    end)).
+
+(* Array._decode_all: `while True: try: decode except BufferEmptyError: break`, and the loop also
+   ends (dropping that value) when the element did not advance the stream *)
 Fixpoint decode_all (dec : bytes -> dres) (fuel : nat) (bs : bytes) : dres :=
   match fuel with
   | O => DOutOfFuel
   | S f =>
       match dec bs with
       | DOk v r1 =>
+          if (length r1 =? length bs)%nat then DOk (VList []) r1
+          else
           dbind (decode_all dec f r1) (fun vs r2 =>
             match vs with VList l => DOk (VList (v :: l)) r2 | _ => DErr (Foreign TypeError) end)
       | DEmpty r => DOk (VList []) r
@@ -641,8 +662,8 @@ Fixpoint decode_all (dec : bytes -> dres) (fuel : nat) (bs : bytes) : dres :=
       | DOutOfFuel => DOutOfFuel
       end
   end.
-Definition array_decode_all (dec : bytes -> dres) (fuel : nat) (bs : bytes) : dres :=
-  dwrap (decode_all dec fuel bs).
+Definition array_decode_all (is_bits : bool) (dec : bytes -> dres) (fuel : nat) (bs : bytes) : dres :=
+  dwrap (dbind (decode_all dec fuel bs) (array_flatten is_bits)).
 
 (* ------------------------------------------------------------------ Struct *)
 (* dict form: b"".join(typ.encode(values[typ.name]) for typ in members) *)
@@ -664,10 +685,12 @@ Fixpoint struct_encode_seq (ms : list (key * (val -> res bytes))) (vs : list val
       Ok (b ++ rs)
   | _, _ => Ok []
   end.
+(* `values = list(values)`; fewer values than members: DataError *)
 Definition struct_encode_inner (ms : list (key * (val -> res bytes))) (v : val) : res bytes :=
   match v with
   | VDict d => struct_encode_dict ms d
-  | _ => let* items := py_iter v in struct_encode_seq ms items
+  | _ => let* items := py_iter v in
+         if (length items <? length ms)%nat then Err DataError else struct_encode_seq ms items
   end.
 
 (* {typ.name: typ.decode(stream) for typ in members} *)
@@ -845,17 +868,14 @@ Definition structtag_encode (ms : list ((key * nat) * (val -> res bytes)))
     | _ => Err (Foreign AttributeError)          (* values.items() *)
     end).
 
-(* members are decoded from a private sub-stream of the first [size] bytes; [total - length sub]
-   bytes of it have been consumed; a member whose offset is ahead of the position is reached by
-   skipping, one whose offset is behind is decoded from the current position *)
-Fixpoint stag_decode_members (ms : list ((key * nat) * (bytes -> dres))) (total : nat)
-         (acc : list (key * val)) (sub : bytes) : dres :=
+(* members are decoded from a private sub-stream of the first [size] bytes, each after
+   `stream.seek(offset)` *)
+Fixpoint stag_decode_members (ms : list ((key * nat) * (bytes -> dres)))
+         (acc : list (key * val)) (raw : bytes) : dres :=
   match ms with
-  | [] => DOk (VDict acc) sub
+  | [] => DOk (VDict acc) []
   | ((k, off), dec) :: r =>
-      let pos := (total - length sub)%nat in
-      let sub1 := if (pos <? off)%nat then skipn (off - pos) sub else sub in
-      dbind (dec sub1) (fun v sub2 => stag_decode_members r total (dict_set acc k v) sub2)
+      dbind (dec (skipn off raw)) (fun v _ => stag_decode_members r (dict_set acc k v) raw)
   end.
 
 Fixpoint stag_decode_bits (bits : list (text * (nat * nat))) (raw : bytes) (acc : list (key * val)) : res (list (key * val)) :=
@@ -873,7 +893,8 @@ Definition structtag_decode (ms : list ((key * nat) * (bytes -> dres)))
   let raw := firstn size bs in
   let rest := skipn size bs in
   dwrap (
-    match stag_decode_members ms (length raw) [] raw with
+    if negb (length raw =? 0)%nat && (length raw <? size)%nat then DErr DataError else
+    match stag_decode_members ms [] raw with
     | DOk (VDict d) _ =>
         match stag_decode_bits bits raw d with
         | Ok d' => DOk (VDict (filter (fun kv => negb (key_in (fst kv) priv)) d')) rest
@@ -891,23 +912,10 @@ Definition is_bits (t : ty) : bool := match t with TBits _ => true | _ => false 
 (* element / member types that are INSTANCES in every construction the library offers *)
 Definition is_instance (t : ty) : bool := match t with TNBytes _ => true | _ => false end.
 
-(* a member's encoding inside b"".join(...) / a bytearray slice assignment: a non-bytes object
-   (n_bytes given a str / list) is a TypeError there *)
-Definition as_member (t : ty) (enc : val -> res bytes) (x : val) : res bytes :=
-  match t, x with
-  | TNBytes _, VBytes _ => enc x
-  | TNBytes _, _ => let* _ := enc x in Err (Foreign TypeError)
-  | _, _ => enc x
-  end.
-
-(* what kind of object T.encode returns when it returns: 0 bytes/bytearray, 1 str, 2 list, 3 tuple *)
-Definition encode_result_kind (t : ty) (v : val) : Z :=
-  match t, v with
-  | TNBytes _, VStr _ => 1
-  | TNBytes _, VList _ => 2
-  | TNBytes _, VTuple _ => 3
-  | _, _ => 0
-  end.
+(* (kept for the clients of the model) every encoder now returns bytes: a member's encoding inside
+   b"".join(...) is the encoding, and T.encode never returns another kind of object *)
+Definition as_member (t : ty) (enc : val -> res bytes) (x : val) : res bytes := enc x.
+Definition encode_result_kind (t : ty) (v : val) : Z := 0.
 
 Fixpoint encode (t : ty) : val -> res bytes :=
   match t with
@@ -920,9 +928,9 @@ Fixpoint encode (t : ty) : val -> res bytes :=
   | TStringI => stringi_encode
   | TNBytes n => nbytes_encode n
   | TBits w => bits_encode w
-  | TArrFixed n e => array_encode (Some n) (bits_width e) (is_instance e) (as_member e (encode e))
-  | TArrPrefix _ _ e => array_encode None (bits_width e) (is_instance e) (as_member e (encode e))
-  | TArrAll e => array_encode None (bits_width e) (is_instance e) (as_member e (encode e))
+  | TArrFixed n e => array_encode (Some n) (bits_width e) (as_member e (encode e))
+  | TArrPrefix _ _ e => array_encode None (bits_width e) (as_member e (encode e))
+  | TArrAll e => array_encode None (bits_width e) (as_member e (encode e))
   | TStruct k ms => struct_encode k (map (fun m => (fst m, as_member (snd m) (encode (snd m)))) ms)
   | TFixedStr size lsg lw cap => fixedstr_encode size lsg lw cap
   | TStructTag ms bits priv size =>
@@ -943,9 +951,9 @@ Fixpoint decode_fuel (fuel : nat) (t : ty) {struct t} : bytes -> dres :=
   | TStringI => stringi_decode
   | TNBytes n => nbytes_decode n
   | TBits w => bits_decode w
-  | TArrFixed n e => array_decode_fixed n (is_bits e) (is_instance e) (decode_fuel fuel e)
-  | TArrPrefix inst lt e => array_decode_prefix inst (decode_fuel fuel lt)
-  | TArrAll e => array_decode_all (decode_fuel fuel e) fuel
+  | TArrFixed n e => array_decode_fixed n (is_bits e) (decode_fuel fuel e)
+  | TArrPrefix _ lt e => array_decode_prefix (is_bits e) (decode_fuel fuel lt) (decode_fuel fuel e)
+  | TArrAll e => array_decode_all (is_bits e) (decode_fuel fuel e) fuel
   | TStruct k ms => struct_decode k (map (fun m => (fst m, decode_fuel fuel (snd m))) ms)
   | TFixedStr size lsg lw _ => fixedstr_decode size lsg lw
   | TStructTag ms bits priv size =>
